@@ -3,62 +3,30 @@
     1. [item_edge_reg]: every edge of the by-value graph of the generated items ([item_edge],
        Model/Sized.v) is an edge of the by-value graph of the registry ([reg_bv_edge],
        Model/SizedReg.v).
-    2. [rank_okb_sound] / [by_value_acyclicb_rank]: when the boolean [by_value_acyclicb] holds,
-       the computed rank [bv_rank_of] strictly decreases along every registry edge.
+    2. [by_value_acyclicb_rank]: when the boolean [by_value_acyclicb] holds, the computed rank
+       [bv_rank_of] strictly decreases along every registry edge; [by_value_acyclicb_iff]: the
+       boolean holds exactly when the registry graph has no cycle (Proofs/RankGraph.v).
     3. [sized]: hence the generated items have no by-value cycle. *)
 From Coq Require Import List NArith String Bool Lia.
 From V Require Import Base.Util Base.Strings Base.Result Model.Registry Model.Settings Model.Subst
   Model.TypePath Model.Derives Model.Generate Model.Emit Model.Equal Model.WellFormed Model.Sized
   Model.SizedReg
   Proofs.GenProofs Proofs.ResolveTotal Proofs.GenTotal Proofs.FidelityGen Proofs.ClosedProofs
-  Proofs.SizedProofs.
+  Proofs.SizedProofs Proofs.RankGraph.
 Import ListNotations.
 Open Scope string_scope. Open Scope list_scope. Open Scope nat_scope.
 
-(** ** the rank check *)
-Lemma rank_okb_sound g rk :
-  rank_okb g rk = true ->
-  forall p succs q, In (p, succs) g -> In q succs -> rk q < rk p.
+(** ** the registry graph as rows, and the rank check on it (Proofs/RankGraph.v) *)
+Lemma reg_bv_edge_graph r s pa pb : reg_bv_edge r s pa pb <-> graph_edge (bv_graph r s) pa pb.
 Proof.
-  unfold rank_okb. intros H p succs q Hin Hq.
-  rewrite forallb_forall in H. specialize (H _ Hin). cbn [fst snd] in H.
-  rewrite forallb_forall in H. specialize (H _ Hq). apply PeanoNat.Nat.ltb_lt in H. exact H.
-Qed.
-
-Lemma reg_bv_edge_row r s pa pb :
-  reg_bv_edge r s pa pb -> exists succs, In (pa, succs) (bv_graph r s) /\ In pb succs.
-Proof.
-  intros (id & t & Hin & He & Hp & Hs). exists (entry_succs r s t). split; [|exact Hs].
-  unfold bv_graph. apply in_flat_map. exists (id, t). split; [exact Hin|].
-  cbn [snd]. rewrite He, Hp. left. reflexivity.
-Qed.
-
-Lemma row_reg_bv_edge r s pa succs pb :
-  In (pa, succs) (bv_graph r s) -> In pb succs -> reg_bv_edge r s pa pb.
-Proof.
-  unfold bv_graph. intros Hin Hpb. apply in_flat_map in Hin as ([id t] & Hin & Hrow).
-  cbn [snd] in Hrow. destruct (bv_item_entry s t) eqn:He; [|destruct Hrow].
-  destruct Hrow as [E|[]]. inversion E; subst. exists id, t. auto.
-Qed.
-
-Theorem rank_okb_reg r s rk :
-  rank_okb (bv_graph r s) rk = true ->
-  forall pa pb, reg_bv_edge r s pa pb -> rk pb < rk pa.
-Proof.
-  intros H pa pb He. destruct (reg_bv_edge_row _ _ _ _ He) as (succs & Hin & Hq).
-  exact (rank_okb_sound _ _ H _ _ _ Hin Hq).
-Qed.
-
-Theorem by_value_acyclicb_rank r s :
-  by_value_acyclicb r s = true ->
-  forall pa pb, reg_bv_edge r s pa pb -> bv_rank_of r s pb < bv_rank_of r s pa.
-Proof. unfold by_value_acyclicb, bv_rank_of. cbv zeta. apply rank_okb_reg. Qed.
-
-Theorem by_value_acyclicb_reg_acyclic r s :
-  by_value_acyclicb r s = true -> forall n p, ~ walk (reg_bv_edge r s) n p p.
-Proof.
-  intros H. apply (walk_acyclic (reg_bv_edge r s) (bv_rank_of r s)).
-  exact (by_value_acyclicb_rank r s H).
+  split.
+  - intros (id & t & Hin & He & Hp & Hs). exists (entry_succs r s t). split; [|exact Hs].
+    unfold bv_graph. apply in_flat_map. exists (id, t). split; [exact Hin|].
+    cbn [snd]. rewrite He, Hp. left. reflexivity.
+  - intros (succs & Hin & Hpb). unfold bv_graph in Hin.
+    apply in_flat_map in Hin as ([id t] & Hin & Hrow).
+    cbn [snd] in Hrow. destruct (bv_item_entry s t) eqn:He; [|destruct Hrow].
+    destruct Hrow as [E|[]]. inversion E; subst. exists id, t. auto.
 Qed.
 
 Lemma walk_mono {A} (E E' : A -> A -> Prop) :
@@ -66,6 +34,30 @@ Lemma walk_mono {A} (E E' : A -> A -> Prop) :
 Proof.
   intros H. induction n as [|n IH]; intros a b W; cbn [walk] in *; [auto|].
   destruct W as (c & Hac & W). exists c. split; [auto|]. apply IH. exact W.
+Qed.
+
+Theorem rank_okb_reg r s rk :
+  rank_okb (bv_graph r s) rk = true ->
+  forall pa pb, reg_bv_edge r s pa pb -> rk pb < rk pa.
+Proof.
+  intros H pa pb He. apply (rank_okb_sound _ _ H). apply reg_bv_edge_graph. exact He.
+Qed.
+
+Theorem by_value_acyclicb_rank r s :
+  by_value_acyclicb r s = true ->
+  forall pa pb, reg_bv_edge r s pa pb -> bv_rank_of r s pb < bv_rank_of r s pa.
+Proof. unfold by_value_acyclicb, bv_rank_of. cbv zeta. apply rank_okb_reg. Qed.
+
+(** the boolean decides acyclicity of the registry's by-value graph *)
+Theorem by_value_acyclicb_iff r s :
+  by_value_acyclicb r s = true <-> (forall n p, ~ walk (reg_bv_edge r s) n p p).
+Proof.
+  split.
+  - intros H. apply (walk_acyclic (reg_bv_edge r s) (bv_rank_of r s)).
+    exact (by_value_acyclicb_rank r s H).
+  - intros Hac. unfold by_value_acyclicb, bv_rank_table. cbv zeta. apply rank_okb_complete.
+    intros n p W. apply (Hac n p). revert W. apply walk_mono.
+    intros a b. apply reg_bv_edge_graph.
 Qed.
 
 (** ** item edges are registry edges *)
@@ -307,3 +299,21 @@ Section SizedReg.
     intros a b. apply (sized_rank_reg teq m Hb Hg).
   Qed.
 End SizedReg.
+
+(** the statements in the argument order of Properties/C02.v *)
+Theorem item_edges_in_registry :
+  forall r s, root_fresh s -> forall teq m, generate r s teq = Ok m ->
+  forall pa pb, item_edge s m pa pb -> reg_bv_edge r s pa pb.
+Proof. exact item_edge_reg. Qed.
+
+Theorem sized_rank_pinned :
+  forall r s, root_fresh s -> by_value_acyclicb r s = true ->
+  forall teq m, generate r s teq = Ok m ->
+  forall pa pb, item_edge s m pa pb -> bv_rank_of r s pb < bv_rank_of r s pa.
+Proof. intros r s Hf Hb teq m Hg. exact (sized_rank_reg r s Hf teq m Hb Hg). Qed.
+
+Theorem sized_pinned :
+  forall r s, root_fresh s -> by_value_acyclicb r s = true ->
+  forall teq m, generate r s teq = Ok m ->
+  forall n p, ~ walk (item_edge s m) n p p.
+Proof. intros r s Hf Hb teq m Hg. exact (sized r s Hf teq m Hb Hg). Qed.
